@@ -162,6 +162,110 @@ def unconditional_errors(ctx):
                 break
 
 
+# insertion mode -> start tags for which the standard says "Acknowledge the token's self-closing flag, if it is set" and which
+# are conforming void elements (frame, keygen, basefont, bgsound are left out: documents with them are not conforming anyway)
+ACK_REQUIRED = {
+    "inHead": ("base", "link", "meta"),
+    "inBody": ("area", "br", "embed", "img", "wbr", "input", "param", "source", "track", "hr"),
+    "inColumnGroup": ("col",),
+}
+
+
+def self_closing_acknowledged(ctx):
+    """R16.9: `<br/>`, `<source src=x />`, `<col/>` are conforming; the tokenizer's self-closing flag must be acknowledged by
+    the handler that inserts the void element, otherwise the main loop records non-void-element-with-trailing-solidus for a
+    conforming document (and strict mode raises).  Per (mode, name) cell of the table above: on every path of the handler to
+    its normal exit that does not hand the token to another handler, `token["selfClosingAcknowledged"] = True` is stored --
+    directly or in a helper of the phase that stores it on all of its paths.  Conversely no handler acknowledges the flag for
+    a name that is not a void element (`<div/>` is an error)."""
+    from ..cfg import CFG, node_calls
+    from ..parsermodel import ParserModel
+    r = ctx.r
+    r.rule("R16.9", "the self-closing flag is acknowledged for the conforming void elements and for no other element", floor=12)
+    pm = ctx.shared("parsermodel", lambda: ParserModel(ctx.repo, ctx.ce))
+    void = ctx.ce.const("constants.py", "voidElements")
+
+    def stores_ack(n, tokname):
+        return n.kind == "stmt" and isinstance(n.ast, ast.Assign) and any(
+            isinstance(t, ast.Subscript) and norm(t.value) == tokname and ctx.ce.try_eval(t.slice, ctx.repo.module("html5parser.py")) == "selfClosingAcknowledged"
+            for t in n.ast.targets) and ctx.ce.try_eval(n.ast.value, ctx.repo.module("html5parser.py")) is True
+    summaries = {}
+
+    def always_acks(f, depth=0):
+        """every path entry -> exit of f stores the acknowledgement on its token parameter (or calls a helper that does)"""
+        if f.fq in summaries:
+            return summaries[f.fq]
+        summaries[f.fq] = False
+        if len(f.params()) < 2:
+            return False
+        tok = f.params()[1]
+        cfg = CFG(f.node)
+
+        def ack(n):
+            if stores_ack(n, tok):
+                return True
+            if depth < 2:
+                for c in node_calls(n):
+                    if isinstance(c.func, ast.Attribute) and norm(c.func.value) == "self" and f.cls is not None and c.args and norm(c.args[0]) == tok:
+                        h = f.cls.find_method(c.func.attr)
+                        if h is not None and always_acks(h, depth + 1):
+                            return True
+            return False
+        par = cfg.reach_forward([cfg.entry], ack)
+        summaries[f.fq] = cfg.exit.id not in par
+        return summaries[f.fq]
+
+    def ack_or_delegate(f):
+        tok = f.params()[1]
+        cfg = CFG(f.node)
+
+        def stop(n):
+            if stores_ack(n, tok):
+                return True
+            for c in node_calls(n):
+                fn = norm(c.func)
+                if c.args and norm(c.args[0]) == tok and (fn.endswith(".processStartTag") or (fn.startswith("self.startTag") and not _helper_acks(f, c))):
+                    return True          # handed to another handler (its own cell is checked)
+                if _helper_acks(f, c):
+                    return True
+            return False
+
+        def _noop():
+            return None
+        par = cfg.reach_forward([cfg.entry], stop)
+        return cfg.exit.id not in par
+
+    def _helper_acks(f, c):
+        if isinstance(c.func, ast.Attribute) and norm(c.func.value) == "self" and f.cls is not None and c.args and norm(c.args[0]) == f.params()[1]:
+            h = f.cls.find_method(c.func.attr)
+            return h is not None and always_acks(h, 1)
+        return False
+    for mode, names in sorted(ACK_REQUIRED.items()):
+        cls = pm.phases.get(mode)
+        for nm in names:
+            h, how = pm.handler(cls, "StartTag", nm) if cls is not None else (None, "no such phase")
+            key = "acknowledged::%s::%s" % (mode, nm)
+            if h is None or len(h.params()) < 2:
+                r.idiom("R16.9", False, key, "html5parser.py", "no start-tag handler for <%s> in %s (%s)" % (nm, mode, how))
+                continue
+            r.check("R16.9", ack_or_delegate(h), key, h.where,
+                    "%s (start tag <%s> in %s) can return without acknowledging the token's self-closing flag: the conforming `<%s/>` records "
+                    "non-void-element-with-trailing-solidus and strict mode raises" % (h.qual, nm, mode, nm), {"mode": mode, "name": nm},
+                    detail={"handler": h.qual})
+    # converse: an acknowledging handler serves only void elements
+    for mode, cls in sorted(pm.phases.items()):
+        tab = pm.table_for(cls, "startTagHandler")
+        if tab is None:
+            continue
+        for nm, h in sorted(tab.map.items()):
+            # (elements the standard, in some revision, also inserts-and-pops with an acknowledgement)
+            if len(h.params()) >= 2 and always_acks(h) and nm not in void and nm not in (
+                    "image", "keygen", "basefont", "bgsound", "frame", "command", "menuitem", "isindex"):
+                r.bad("R16.9", "acknowledged-only-void::%s::%s" % (mode, nm), h.where,
+                      "%s acknowledges the self-closing flag for <%s>, which is not a void element: `<%s/>` is no longer reported" % (h.qual, nm, nm),
+                      {"mode": mode, "name": nm})
+
+
 def ce_code(ctx, call, mod):
     if not call.args:
         return "XXX-undefined-error (no code given)"
@@ -185,6 +289,7 @@ def run(ctx):
                     "mainLoop forwards ParseError tokens; tokenizer drains stream.errors", floor=5)
     r.rule("R16.3", "no except clause on the parse path can swallow ParseError around a call reaching parseError", floor=1)
     unconditional_errors(ctx)
+    self_closing_acknowledged(ctx)
 
     # strict <=> non-strict across an encoding restart: the restart (except _ReparseException: reset(); mainLoop()) forgets
     # the errors of the abandoned pass; strict mode must then not have raised for them (or the restart must keep them)
@@ -419,6 +524,9 @@ def run(ctx):
 def mutants():
     from ..selftest import TextMutant as T, AstMutant as A
     return [
+        T("param-source-no-ack", "html5parser.py", "    def startTagParamSource(self, token):\n        self.tree.insertElement(token)\n        self.tree.openElements.pop()\n        token[\"selfClosingAcknowledged\"] = True\n",
+          "    def startTagParamSource(self, token):\n        self.tree.insertElement(token)\n        self.tree.openElements.pop()\n", "R16.9"),
+        T("div-acknowledged", "html5parser.py", "    def startTagCloseP(self, token):\n", "    def startTagCloseP(self, token):\n        token[\"selfClosingAcknowledged\"] = True\n", "R16.9"),
         T("caption-implied-end-is-an-error", "html5parser.py", "    def endTagTable(self, token):\n        ignoreEndTag = self.ignoreEndTagCaption()", "    def endTagTable(self, token):\n        self.parser.parseError()\n        ignoreEndTag = self.ignoreEndTagCaption()", "R16.8"),
         T("option-start-in-select-is-an-error", "html5parser.py", "    def startTagOption(self, token):\n        # We need to imply </option> if <option> is the current node.", "    def startTagOption(self, token):\n        self.parser.parseError(\"unexpected-start-tag\", {\"name\": \"option\"})\n        # We need to imply </option> if <option> is the current node.", "R16.8"),
         T("drop-E-key", "constants.py", '"eof-in-tag-name":', '"eof-in-tag-name-x":', "R16.1"),
